@@ -423,6 +423,45 @@ def ob_native_users():
     return bounded(gen(), check)
 
 
+@obligation("native/wrapped_cells_follow_the_original", kind="bounded", timeout=600,
+            desc="CellWrap of a hexagonal / square / 3-sector cell, queried, then the ORIGINAL cell's radius / rotation changed through its "
+                 "setters (the wrap takes both from the original), queried again: each time is_point_inside_shape of the wrap agrees with "
+                 "the polygon of the wrap's own current vertices on random points (edge band excluded)")
+def ob_native_wrap():
+    from pyphysim.cell import cell as cm
+    r = stable_rng("C19wrap")
+
+    def gen():
+        for i in range(40 if quick() else 400):
+            yield {"seed": int(r.randint(1 << 30)), "kind": ["hex", "square", "hex"][i % 3]}
+
+    def check(case):
+        rr = np.random.RandomState(case["seed"])
+        pos = complex(rr.uniform(-5, 5), rr.uniform(-5, 5))
+        rad = float(10 ** rr.uniform(-0.5, 1))
+        rot = float(rr.choice([0, 30, 45, -17.5]))
+        orig = cm.Cell(pos, rad, 1, rot) if case["kind"] == "hex" else cm.CellSquare(pos, rad, 1, rot)
+        w = cm.CellWrap(complex(rr.uniform(-30, 30), rr.uniform(-30, 30)), orig)
+        for step in range(4):
+            v = np.asarray(w.vertices)
+            ext = 2.5 * max(abs(v - w.pos))
+            for _ in range(60):
+                p = w.pos + complex(rr.uniform(-ext, ext), rr.uniform(-ext, ext))
+                m = _poly_member(v, p)
+                if m is None:
+                    continue
+                got = bool(w.is_point_inside_shape(p))
+                if got != m:
+                    return {"step": step, "kind": case["kind"], "radius": w.radius, "rotation": w.rotation, "point": str(p),
+                            "is_point_inside_shape": got, "inside the wrap's own vertices": m}
+            if step % 2 == 0:
+                orig.radius = float(orig.radius * rr.choice([0.4, 2.5]))
+            else:
+                orig.rotation = float(orig.rotation + rr.choice([15.0, 40.0, -75.0]))
+        return None
+    return bounded(gen(), check)
+
+
 @obligation("native/cluster_layout", kind="bounded", timeout=1500,
             desc="Cluster of every supported size {1,3,4,7,13,19} (hexagon, 3sec) and square grids {1,4,9,16} x rotations x radii x positions: "
                  "cells congruent, neighbouring centres exactly two apothems (squares: one side) apart and none closer (no overlap), "
